@@ -328,7 +328,7 @@ def call(name, p1, p2, kwargs=None):
 def pair_L(p1, p2):
     L = 1.0
     for p in (p1, p2):
-        L = max(L, float(p.orc.scale()) if hasattr(p.orc, "scale") else 1.0, 0.0 if O.STRICT_L else float(np.linalg.norm(p.orc.center())))
+        L = max(L, float(p.orc.scale()) if hasattr(p.orc, "scale") else 1.0, float(np.linalg.norm(p.orc.center())))
     L = max(L, float(np.linalg.norm(p1.orc.center() - p2.orc.center())))
     return L
 
